@@ -4,6 +4,7 @@ import KoordVerif.Model.C19Dev
 import KoordVerif.Model.C19Rsv
 import KoordVerif.Model.C19QuotaSpec
 import KoordVerif.Model.C19Boot
+import KoordVerif.Model.C19PreBind
 /-
 Driver for C19.  A case belongs to one harness; the first token of its first op line selects the
 sub-model (`dev` -> Model/C19Dev, `rsv` -> Model/C19Rsv, `quota` -> Model/C19Quota + C19QuotaSpec,
@@ -20,6 +21,12 @@ numa harness (pkg/scheduler/plugins/nodenumaresource), one case = one history on
         (kind 0 = pod, 1 = Reservation with the resource spec on itself, 2 = … on spec.template)
         Reserve (resourceManager.Update on the live cache) + PreBind (persist on the object)
         -> `annot <byte>*` (the CPU-set text written)
+        The object may already carry an annotation (stored by an earlier `numa try` of the same uid):
+        Model/C19PreBind.lean `preBind carried a`.
+  numa try <uid> <kind> <excl> <k> <cpu>^k <m> (<node> <cpuMilli> <memBytes>)^m
+        a scheduling attempt that gets as far as PreBind and then fails to bind: Reserve + PreBind; the object is
+        stored annotated but UNBOUND -> `annot <byte>*`
+  numa unres <uid>            Unreserve of that attempt (resourceManager.Release); the stored object is unchanged
   numa raw <uid> <assigned> <term> <excl> <hasAnnot> <t> <byte>^t <m> (<node> <cpu> <mem>)^m
         store a hand-made object (no event)
   numa setterm <uid>          the stored object becomes terminated (no event)
@@ -91,6 +98,28 @@ def splitAtLen (k : Nat) (xs : List Int) : Option (List Int × List Int) :=
 def toNats? (xs : List Int) : Option (List Nat) :=
   xs.mapM (fun x => if x < 0 then none else some x.toNat)
 
+/-- `numa bind` (bound = true) / `numa try` (bound = false): Reserve + PreBind of one scheduling attempt. -/
+def numaAttempt (d : DState) (bound : Bool) (rest : List String) : DState × List String :=
+  let bad := (d, ["bad-op"])
+  match ints? rest with
+  | some (uid :: kind :: excl :: k :: r1) =>
+    if uid < 0 ∨ excl < 0 ∨ k < 0 ∨ kind < 0 ∨ kind > 2 then bad else
+    match splitAtLen k.toNat r1 with
+    | some (cpusI, m :: r2) =>
+      match toNats? cpusI, parseNuma r2 with
+      | some cpus, some numa =>
+        if numa.length ≠ m.toNat then bad else
+        let a : PodAlloc := { uid := uid.toNat, cpus := toSet cpus, excl := excl.toNat, numa := numa }
+        -- what the object carries when it reaches PreBind (an earlier attempt's annotation, or nothing)
+        let carried := (findObj a.uid d.objs).bind (·.annot)
+        let an? := preBind carried a
+        let o : Obj := { uid := a.uid, assigned := bound, term := false, excl := persistedExcl kind.toNat a, annot := an? }
+        ({ d with live := update d.topo d.live a, objs := putObj o d.objs },
+         [withSp "annot" (showNats ((an?.map (·.text)).getD []))])
+      | _, _ => bad
+    | _ => bad
+  | _ => bad
+
 def stepNuma (d : DState) (args : List String) : DState × List String :=
   let bad := (d, ["bad-op"])
   match args with
@@ -98,22 +127,12 @@ def stepNuma (d : DState) (args : List String) : DState × List String :=
     match nats? rest with
     | some (mr :: topo) => ({ d with topo := topo, maxRef := mr }, [])
     | _ => bad
-  | "bind" :: rest =>
-    match ints? rest with
-    | some (uid :: kind :: excl :: k :: r1) =>
-      if uid < 0 ∨ excl < 0 ∨ k < 0 ∨ kind < 0 ∨ kind > 2 then bad else
-      match splitAtLen k.toNat r1 with
-      | some (cpusI, m :: r2) =>
-        match toNats? cpusI, parseNuma r2 with
-        | some cpus, some numa =>
-          if numa.length ≠ m.toNat then bad else
-          let a : PodAlloc := { uid := uid.toNat, cpus := toSet cpus, excl := excl.toNat, numa := numa }
-          let an := persist a
-          let o : Obj := { uid := a.uid, assigned := true, term := false, excl := persistedExcl kind.toNat a, annot := some an }
-          ({ d with live := update d.topo d.live a, objs := putObj o d.objs }, [withSp "annot" (showNats an.text)])
-        | _, _ => bad
-      | _ => bad
-    | _ => bad
+  | "bind" :: rest => numaAttempt d true rest
+  | "try" :: rest => numaAttempt d false rest
+  | ["unres", u] =>
+    match nat? u with
+    | some uid => ({ d with live := release d.topo d.live uid }, [])
+    | none => bad
   | "raw" :: rest =>
     match ints? rest with
     | some (uid :: asg :: term :: excl :: hasA :: t :: r1) =>
